@@ -27,6 +27,14 @@ var formalParameters = make(map[string]string)
 var currentClassBs bs_domain.ClassBadSmellInfo
 
 func NewBadSmellListener() *BadSmellListener {
+	// the working state is per file: nothing of the previous file may be left
+	imports = nil
+	clzs = nil
+	currentClzType = ""
+	fields = make(map[string]string)
+	localVars = make(map[string]string)
+	formalParameters = make(map[string]string)
+	currentClassBs = bs_domain.ClassBadSmellInfo{}
 	currentClz = ""
 	currentPkg = ""
 	methods = nil
